@@ -54,7 +54,11 @@
        C12_insert_ii_lawful          the common core computes l_insert ... u for
                                      both policies u (also when the map is full and
                                      the key present: it panics only for an ABSENT
-                                     key in a full map)
+                                     key in a full map; then the container is untouched
+                                     and the rejected k and v are destroyed exactly once
+                                     by unwinding — same panic clause in C12_insert_lawful,
+                                     C12_insert_key_value_lawful, C12_s_insert_lawful,
+                                     C12_s_replace_lawful)
        C12_insert_lawful             insert = l_insert ... false; the displaced key
                                      (the supplied object) is destroyed, old value
                                      returned
@@ -122,8 +126,9 @@ Theorem C12_insert_lawful :
             | None => []
             end)
        (fun w' : world K V T =>
-          stable w w' /\ find_idx ck (ck k) (Spec.elems (self w)) = None /\
-          len (self w) = cap (self w)) w.
+          self w' = self w /\
+          logged w w' (ev_drops (idK E k ++ idV E v)) /\
+          find_idx ck (ck k) (Spec.elems (self w)) = None /\ len (self w) = cap (self w)) w.
 Proof. exact (fun K V Q T E debug ck cq HL => insert_lawful E debug ck cq HL). Qed.
 Print Assumptions C12_insert_lawful.
 
@@ -137,8 +142,9 @@ Theorem C12_insert_key_value_lawful :
           Spec.elems (self w') = fst (fst (l_insert ck (Spec.elems (self w)) k v true)) /\
           r = snd (l_insert ck (Spec.elems (self w)) k v true))
        (fun w' : world K V T =>
-          stable w w' /\ find_idx ck (ck k) (Spec.elems (self w)) = None /\
-          len (self w) = cap (self w)) w.
+          self w' = self w /\
+          logged w w' (ev_drops (idK E k ++ idV E v)) /\
+          find_idx ck (ck k) (Spec.elems (self w)) = None /\ len (self w) = cap (self w)) w.
 Proof. exact (fun K V Q T E debug ck cq HL => insert_key_value_lawful E debug ck cq HL). Qed.
 Print Assumptions C12_insert_key_value_lawful.
 
@@ -175,8 +181,9 @@ Theorem C12_insert_ii_lawful :
           (Spec.elems (self w'), fst r, snd r) = l_insert ck (Spec.elems (self w)) k v u /\
           (find_idx ck (ck k) (Spec.elems (self w)) = None -> len (self w) < cap (self w)))
        (fun w' : world K V T =>
-          stable w w' /\ find_idx ck (ck k) (Spec.elems (self w)) = None /\
-          len (self w) = cap (self w)) w.
+          self w' = self w /\
+          logged w w' (ev_drops (idK E k ++ idV E v)) /\
+          find_idx ck (ck k) (Spec.elems (self w)) = None /\ len (self w) = cap (self w)) w.
 Proof. exact (fun K V Q T E debug ck cq HL => insert_ii_lawful E debug ck cq HL). Qed.
 Print Assumptions C12_insert_ii_lawful.
 
@@ -288,8 +295,9 @@ Theorem C12_s_insert_lawful :
             end /\
           (find_idx ck (ck k) (Spec.elems (self w)) = None -> len (self w) < cap (self w)))
        (fun w' : world K unit T =>
-          stable w w' /\ find_idx ck (ck k) (Spec.elems (self w)) = None /\
-          len (self w) = cap (self w)) w.
+          self w' = self w /\
+          logged w w' (ev_drops (idK E k ++ idV E tt)) /\
+          find_idx ck (ck k) (Spec.elems (self w)) = None /\ len (self w) = cap (self w)) w.
 Proof. exact (fun K Q T E debug ck cq HL => s_insert_lawful E debug ck cq HL). Qed.
 Print Assumptions C12_s_insert_lawful.
 
@@ -308,8 +316,9 @@ Theorem C12_s_replace_lawful :
             end /\
           (find_idx ck (ck k) (Spec.elems (self w)) = None -> len (self w) < cap (self w)))
        (fun w' : world K unit T =>
-          stable w w' /\ find_idx ck (ck k) (Spec.elems (self w)) = None /\
-          len (self w) = cap (self w)) w.
+          self w' = self w /\
+          logged w w' (ev_drops (idK E k ++ idV E tt)) /\
+          find_idx ck (ck k) (Spec.elems (self w)) = None /\ len (self w) = cap (self w)) w.
 Proof. exact (fun K Q T E debug ck cq HL => s_replace_lawful E debug ck cq HL). Qed.
 Print Assumptions C12_s_replace_lawful.
 
